@@ -3,7 +3,11 @@
 Two in-package harnesses share one generator / encoding / oracle (harness/overlay/internal/verifc20):
   fs/source  TestVerifC20     both writers, FromDefaultLabels, appendWithValidation
   service    TestVerifC20CRI  both writers, sourceFromCRILabels, sources(cri, default)
-Each runs three separate passes (VERIF_C20_STREAM):
+  service    TestVerifC20Mount (package service_test, exported API only): the snapshotter's real Mount on a
+             filesystem built by service.NewFileSystem; a resolve handler, the RegistryHosts function and an
+             in-memory registry record which reference / digest / URLs / neighbours / prefetch size the mount
+             path hands on.  Nothing in /repo is pinned textually: how fs.Mount consumes the labels is observed.
+The first two run three separate passes each (VERIF_C20_STREAM):
   clean    inputs inside the hypotheses of the theorems; strict correspondence, every oracle failure is a violation
   hyp      inputs inside the property's quantifier that violate a forced hypothesis (comma in a URL; extra flavour:
            repeated digest with different URLs, protocol keys pre-set in the manifest).  The Lean file proves each
@@ -13,33 +17,6 @@ Each runs three separate passes (VERIF_C20_STREAM):
            nonlayer_between_layers_counterexample: verdicts are counted into the evidence, nothing can fail.
 """
 import os
-import re
-
-import vlib
-
-# Lines of /repo/fs/fs.go that the harness replicates (prefetch-size label parsing in Mount and the
-# neighbour filter); pinned textually so that an edit there breaks the tie instead of going unnoticed.
-FS_GO_FACTS = [
-    "if psStr, ok := labels[config.TargetPrefetchSizeLabel]; ok {",
-    "if ps, err := strconv.ParseInt(psStr, 10, 64); err == nil {",
-    "defaultPrefetchSize = ps",
-    "for _, desc := range neighboringLayers(preResolve.Manifest, preResolve.Target) {",
-    "if desc.Digest.String() != target.Digest.String() {",
-]
-
-
-def facts(ctx):
-    try:
-        src = open(os.path.join(vlib.REPO, "fs", "fs.go")).read()
-    except OSError:
-        ctx.broken.append("fact:fs/fs.go:unreadable")
-        return
-    norm = re.sub(r"[ \t]+", " ", src)
-    for line in FS_GO_FACTS:
-        ctx.cov["facts_checked"] += 1
-        if re.sub(r"[ \t]+", " ", line) not in norm:
-            ctx.broken.append("fact:fs/fs.go:" + line[:40])
-            ctx.log("fact missing in fs/fs.go:", line)
 
 
 def outside_stream(ctx, binary, test, tag, n):
@@ -58,10 +35,18 @@ def outside_stream(ctx, binary, test, tag, n):
 
 def run(ctx):
     ctx.lean_obligations(["SV.Props.C20"], drivers=["svdriver_c20"])
-    facts(ctx)
     quick = ctx.tier == "quick"
-    bsrc = ctx.go_test_binary("fs/source", "h_source")
-    bsvc = ctx.go_test_binary("service", "h_service")
+    bsrc = ctx.go_test_binary("fs/source", "h_source")      # exported identifiers only
+    bsvc = ctx.go_test_binary("service", "h_service")        # in-package (2 unexported readers) + exported-API mount harness
+    bmount = bsvc
+    if not bsvc:
+        # The in-package harness names service.sourceFromCRILabels / service.sources.  If a refactor renamed
+        # them the property may still hold: fall back to the harness that uses exported API only.
+        bmount = ctx.go_test_binary("service", "h_service_mount", only=["c20mount"])
+        if bmount:
+            ctx.broken = [b for b in ctx.broken if b != "harness-build:service"]
+            ctx.notes.append("in-package harness of package service did not compile (unexported reader renamed?); "
+                             "CRI flavour covered through the exported-API mount harness only")
     seeds = [ctx.seed] if quick else [ctx.seed] + [ctx.seed * 1000 + k for k in range(1, 6)]
     n = 40 if quick else 160
     for k, s in enumerate(seeds):
@@ -79,6 +64,9 @@ def run(ctx):
     if bsvc:
         ctx.correspond(bsvc, "TestVerifC20CRI", "svdriver_c20", "c20cri-hyp", env={"VERIF_N": nh, "VERIF_C20_STREAM": "hyp"})
         outside_stream(ctx, bsvc, "TestVerifC20CRI", "c20cri-outside", nh)
+    if bmount:
+        ctx.correspond(bmount, "TestVerifC20Mount", "svdriver_c20", "c20mount",
+                       env={"VERIF_N": (12 if bsvc else 40) if quick else 150})
     ctx.expect_known = bool(bsrc and bsvc)
     return ctx.finish(
         level="proof",
@@ -88,10 +76,12 @@ def run(ctx):
              "flavours; labels of sampled children compared impl-vs-model, validated with containerd's labels.Validate, "
              "read by FromDefaultLabels / sourceFromCRILabels / sources(cri,default) unmodified and with mandatory or "
              "optional labels removed or corrupted; cases distinct by (stream, flavour, shape, truncation, reference "
-             "length, prefetch size); plus direct ops on appendWithValidation, ParseInt, digest.Parse, strings.Split",
+             "length, prefetch size); direct ops on ParseInt, digest.Parse, strings.Split; plus real Mounts (service.NewFileSystem) of "
+             "small manifests per flavour with labels unmodified / mandatory label missing / prefetch label missing or corrupt",
         assumptions=[
             "reference.Parse (net/url based) is a parameter of the model; the harness supplies its answers per op",
-            "fs.Mount's prefetch-label parsing and neighboringLayers filter are replicated in the harness (3+1 lines, pinned textually against /repo/fs/fs.go)",
+            "fs.Mount's consumption (which source is resolved, pre-resolved neighbours, prefetch size) is observed through a resolve handler, "
+            "the RegistryHosts callback and the byte ranges requested from an in-memory registry; nothing in /repo is pinned textually",
             "containerd passes the layer descriptor's annotations to the snapshotter as labels unchanged (keys with prefix containerd.io/snapshot/)",
             "labels_valid_*: reference / digest fit under their keys (ref <= 4050 bytes default flavour); urls_*: no ',' inside a URL; "
             "extra flavour: no protocol keys pre-set in the manifest, equal digests carry equal URL lists (violations are the three known findings); "
